@@ -30,7 +30,7 @@ func init() {
 		mutant{Name: "applied version not advanced when an entry is stored", File: gstate, Old: "\t\tstate.Entries[e.Key] = e\n\t\tstate.Version = e.Version\n", New: "\t\tstate.Entries[e.Key] = e\n", Rule: "C02.R7"},
 		mutant{Name: "observer compaction keeps the entry written at the compaction version", File: gstate, Old: "\t\t\t\t\tif e.Version <= compactVersion {", New: "\t\t\t\t\tif e.Version < compactVersion {", Rule: "C02.R8"},
 		mutant{Name: "observer compaction notifies but keeps the entries", File: gstate, Old: "\t\t\t\t\t\tdelete(state.Entries, e.Key)\n", New: "", Rule: "C02.R8"},
-		mutant{Name: "known node replaced by an empty one on every delta", File: gstate, Old: "\tstate, ok := s.nodes[entry.ID]\n\tif !ok {\n\t\ts.nodes[entry.ID] = &nodeState{", New: "\tstate, ok := s.nodes[entry.ID]\n\tif ok {\n\t\ts.nodes[entry.ID] = &nodeState{", Rule: "C02.R9"},
+		mutant{Name: "known node replaced by an empty one on every delta", File: gstate, Old: "\tstate, ok := s.nodes[entry.ID]\n\tif !ok {\n\t\t// Node IDs are used", New: "\tstate, ok := s.nodes[entry.ID]\n\tif ok {\n\t\t// Node IDs are used", Rule: "C02.R9"},
 		mutant{Name: "first stale entry ends the whole delta", File: gstate, Old: "\t\tif e.Version <= state.Version {\n\t\t\tcontinue\n\t\t}", New: "\t\tif e.Version <= state.Version {\n\t\t\tbreak\n\t\t}", Rule: "C02.R6"},
 	)
 	add("C03",
@@ -82,9 +82,17 @@ func init() {
 		mutant{Name: "digest decoder accepts every type but digests", File: gprot, Old: "\tif messageType != messageTypeDigest {", New: "\tif messageType == messageTypeDigest {", Rule: "C13.R8"},
 		mutant{Name: "packets of the supported version are the ones rejected", File: glist, Old: "\tif version != supportedVersion {\n\t\treturn fmt.Errorf(\"unsupported version: %d\", version)\n\t}\n\n\tswitch messageType {\n\tcase messageTypeDigest:", New: "\tif version == supportedVersion {\n\t\treturn fmt.Errorf(\"unsupported version: %d\", version)\n\t}\n\n\tswitch messageType {\n\tcase messageTypeDigest:", Rule: "C13.R8"},
 	)
+	add("C13",
+		mutant{Name: "re-introduces D5: a delta may name a node whose id is not valid UTF-8", File: gstate, Old: "\t\tif !utf8.ValidString(entry.ID) {\n\t\t\treturn\n\t\t}\n", New: "\t\tif !utf8.ValidString(entry.ID) && false {\n\t\t\treturn\n\t\t}\n", Rule: "C13.R9"},
+		mutant{Name: "re-introduces D5: a digest may name a node whose id is not valid UTF-8", File: gstate, Old: "\t\tif !utf8.ValidString(entry.ID) {\n\t\t\tcontinue\n\t\t}\n", New: "", Rule: "C13.R9"},
+		mutant{Name: "received key used as a metrics label", File: gstate, Old: "\t\t\"node_id\":  nodeID,\n\t\t\"internal\": strconv.FormatBool(newEntry.Internal),", New: "\t\t\"node_id\":  nodeID + newEntry.Key,\n\t\t\"internal\": strconv.FormatBool(newEntry.Internal),", Rule: "C13.R9"},
+	)
 	add("C16",
 		mutant{Name: "sessions are never recorded", File: upsrv, Old: "\ts.sessions[sess] = struct{}{}\n", New: "", Rule: "C16.R5"},
 		mutant{Name: "gone upstreams are never deregistered by the dial hook", File: httpp, Old: "if err != nil && errors.Is(err, upstream.ErrGone)", New: "if err == nil && errors.Is(err, upstream.ErrGone)", Rule: "C16.R8"},
+	)
+	add("C18",
+		mutant{Name: "an aborted handshake is a permanent dial failure", File: wsc, Old: "\tif resp == nil {\n\t\treturn nil, NewRetryableError(err)\n\t}", New: "\tif resp == nil {\n\t\tvar netErr net.Error\n\t\tif errors.As(err, &netErr) {\n\t\t\treturn nil, NewRetryableError(err)\n\t\t}\n\t\treturn nil, err\n\t}", Rule: "C18.R7"},
 	)
 	add("C17",
 		mutant{Name: "leave is dropped unless the node has already left", File: gstate, Old: "\tif state.Left {\n\t\t// Already left.", New: "\tif !state.Left {\n\t\t// Already left.", Rule: "C17.R2"},
@@ -92,6 +100,9 @@ func init() {
 		mutant{Name: "Gossip.UpsertLocal does nothing", File: ggo, Old: "\tg.state.UpsertLocal(key, value)\n", New: "", Rule: "C17.R6"},
 	)
 	add("C20",
+		mutant{Name: "packets handled in a goroutine that shares the read buffer", File: glist, Old: "\t\tbuf := l.readBuf[:n]\n\t\tif err = l.handlePacket(buf); err != nil {", New: "\t\tbuf := l.readBuf[:n]\n\t\tgo func() { _ = l.handlePacket(buf) }()\n\t\tif err = nil; err != nil {", Rule: "C20.L10"},
+		mutant{Name: "benign: packets handled in a goroutine on a private copy", Benign: true, File: glist, Old: "\t\tbuf := l.readBuf[:n]\n\t\tif err = l.handlePacket(buf); err != nil {", New: "\t\tbuf := append([]byte(nil), l.readBuf[:n]...)\n\t\tif err = l.handlePacket(buf); err != nil {"},
+		mutant{Name: "Select returns with the manager mutex held", File: upmgr, Old: "\tm.mu.Lock()\n\tdefer m.mu.Unlock()\n\n\tlb, ok := m.localUpstreams[endpointID]\n\tif ok {", New: "\tm.mu.Lock()\n\n\tlb, ok := m.localUpstreams[endpointID]\n\tif !allowRemote && !ok {\n\t\treturn nil, false\n\t}\n\tdefer m.mu.Unlock()\n\tif ok {", Rule: "C20.L6"},
 		mutant{Name: "missing balancer dereferenced on disconnect", File: upmgr, Old: "\tif !ok {\n\t\treturn\n\t}\n\tif !slices.Contains", New: "\tif ok {\n\t\treturn\n\t}\n\tif !slices.Contains", Rule: "C20.L9"},
 		mutant{Name: "Close writes a close frame concurrently with the copy loop", File: wsc, Old: "func (c *Conn) Close() error {\n\treturn c.wsConn.Close()", New: "func (c *Conn) Close() error {\n\t_ = c.wsConn.WriteMessage(websocket.CloseMessage, nil)\n\treturn c.wsConn.Close()", Rule: "C20.L8"},
 	)
